@@ -163,7 +163,12 @@ def _run(mod, args, seed, t0):
             if "harness_error" in rr:
                 raise HarnessError("replay of a violation failed: " + rr["harness_error"])
             if not any(x["signature"] == v["signature"] for x in rr.get("violations", [])):
-                raise HarnessError("violation %s did not reproduce on replay in a fresh interpreter" % key)
+                os.makedirs(REPLAY_DIR, exist_ok=True)
+                dump = os.path.join(REPLAY_DIR, "NONREPRO-%s.json" % mod.PROP)
+                with open(dump, "w") as fp:
+                    json.dump({"property": mod.PROP, "engine": mod.ENGINE, "signature": v["signature"], "message": v["message"], "scenario": v["scenario"],
+                               "replayed": rr.get("violations", [])}, fp, indent=1)
+                raise HarnessError("violation %s did not reproduce on replay in a fresh interpreter (scenario dumped to %s)" % (key, dump))
             path = write_replay(mod.PROP, v)
             n_viol += 1
             lines.append("VIOLATION property=%s replay=%s" % (mod.PROP, path))
